@@ -55,6 +55,7 @@ def run_C10(ctx, rep):
     byods_rules.check_L5(ctx, rep, 'eqrel_ternary')
     byods_rules.check_L15(ctx, rep)
     byods_rules2.check_L33(ctx, rep)
+    byods_rules2.check_L34(ctx, rep, ['eqrel_ind', 'ceqrel_ind'])
     byods_rules.check_L16(ctx, rep, ['union_find'])
     byods_rules.check_L20(ctx, rep, ['union_find', 'eqrel_ind', 'eqrel_ternary', 'utils'])
     byods_rules.check_L23(ctx, rep, ['eqrel_ternary', 'eqrel_ind', 'ceqrel_ind'])
